@@ -147,6 +147,9 @@ impl TextCorpus {
                 let mut prev = 0usize;
                 let dense = rng.bool();
                 for (a, b) in toks {
+                    if a < prev || b < a || b > base.len() || !base.is_char_boundary(a) || !base.is_char_boundary(b) {
+                        continue;
+                    }
                     let gap = &base[prev..a];
                     if !gap.is_empty() && gap.chars().all(|c| c.is_whitespace()) && (dense || rng.chance(1, 6)) {
                         let width = match rng.below(4) {
